@@ -141,18 +141,20 @@ def run(ctx):
     # ErrorCheck with a location maps the error through .at(location)
     f = ctx.fn(common.TOK % "error::ErrorCheck<'_>")
     if f:
-        T = tpl.Templates(f)
         ok = None
-        for s in T.by_stream:
-            txt = T.text(s)
-            own = [tk.text for tk in T.by_stream[s] if tk.kind == "ident"]
-            if "map_err" in own and ". map_err ( | e | e . at (" in txt:
-                here = all(ctx._sat(d, r"is_some\(self\.location\)=True") for d in ctx.pc_strs(f, T.by_stream[s][0].blk))
-                ok = here if ok is None else (ok and here)
-            elif "finish" in own and "__errors . finish ( ) ?" in txt:
-                # the unlocated finish written out as a template of its own: only without a location
-                here = all(ctx._sat(d, r"is_some\(self\.location\)=False") for d in ctx.pc_strs(f, T.by_stream[s][0].blk))
-                ok = here if ok is None else (ok and here)
+        # the piece may be built in the generator or in a closure handed to `self.location.map(..)`
+        for g_ in [f] + ctx._closures_deep(f):
+            T = tpl.Templates(g_)
+            for s in T.by_stream:
+                txt = T.text(s)
+                own = [tk.text for tk in T.by_stream[s] if tk.kind == "ident"]
+                if "map_err" in own and ". map_err ( | e | e . at (" in txt:
+                    here = all(ctx._sat(d, r"is_some\(self\.location\)=True") for d in ctx.pc_strs(g_, T.by_stream[s][0].blk))
+                    ok = here if ok is None else (ok and here)
+                elif "finish" in own and "__errors . finish ( ) ?" in txt:
+                    # the unlocated finish written out as a template of its own: only without a location
+                    here = all(ctx._sat(d, r"is_some\(self\.location\)=False") for d in ctx.pc_strs(g_, T.by_stream[s][0].blk))
+                    ok = here if ok is None else (ok and here)
         ok = bool(ok)
         ctx.ob("C09.G.error-check-location", f.key, ".map_err(|e| e.at(location)) iff location", ok, "located finish")
     # ------------------------------------------------------------ enum fn-body template
